@@ -35,9 +35,9 @@ LETTERS = "abcdefghijklmnopqrstuvwxyzABCDEFGHIJKLMNOPQRSTUVWXYZ0123456789"
 
 def cases(tier, seed):
     out = [{"kind": "small", "n": n} for n in range(1, 8)]
-    ngen = 400 if tier == "quick" else 20000
+    ngen = 400 if tier == "quick" else 300000
     out += [{"kind": "gen", "i": i, "seed": seed} for i in range(ngen)]
-    out += _embedded.assembly_cases(seed, 40 if tier == "quick" else 1500)
+    out += _embedded.assembly_cases(seed, 40 if tier == "quick" else 8000)
     if tier == "thorough":
         out.append({"kind": "repo-tests"})
     return out
